@@ -266,6 +266,17 @@ pub fn write_ink_list(list: &InkList) -> serde_json::Value {
 
     jobj.insert("list".to_owned(), serde_json::Value::Object(jlist));
 
+    // An empty list only knows its origin lists by name: keep them (sorted, so the
+    // output does not depend on hash order).
+    if list.items.is_empty() {
+        let mut origin_names = list.get_origin_names();
+        origin_names.sort();
+        origin_names.dedup();
+        if !origin_names.is_empty() {
+            jobj.insert("origins".to_owned(), json!(origin_names));
+        }
+    }
+
     serde_json::Value::Object(jobj)
 }
 
